@@ -13,7 +13,19 @@ namespace {
 struct Buf {
     char* p; size_t cap; size_t n;
     void add(const std::string& s) { if (n + s.size() < cap) { memcpy(p + n, s.data(), s.size()); n += s.size(); } }
-    void kv(const char* k, const std::string& v) { add(k); add("="); add(v); add("\n"); }
+    // a value is never dropped: one that is too long for a line of the report is replaced by its length and digest
+    void kvraw(const char* k, const std::string& v) { add(k); add("="); add(v); add("\n"); }
+    void kv(const char* k, const std::string& v) {
+        if (v.size() > 2048) {
+            unsigned long long h = 1469598103934665603ULL;
+            for (unsigned char c : v) { h ^= c; h *= 1099511628211ULL; }
+            char buf[80];
+            snprintf(buf, sizeof buf, "#long:%zu:%016llx", v.size(), h);
+            add(k); add("="); add(buf); add("\n");
+            return;
+        }
+        add(k); add("="); add(v); add("\n");
+    }
     void kvi(const char* k, long long v) { kv(k, std::to_string(v)); }
 };
 std::string hex(const unsigned char* b, size_t n) {
@@ -72,7 +84,7 @@ extern "C" size_t PROBE_FN(PROBE_GROUP)(char* out, size_t cap) {
         for (size_t i = 0; i < env->vfExec.size(); i++) v += env->vfExec.at(i) ? '1' : '0';
         b.kv("vfexec", v);
     }
-    b.kv("script", hexv(env->script));
+    b.kvraw("script", hexv(env->script));      // the checks decode it: always in full
     b.kvi("pc", off(env->script, env->pc));
     b.kvi("pend", off(env->script, env->pend));
 #elif defined(PROBE_counters)
@@ -93,7 +105,7 @@ extern "C" size_t PROBE_FN(PROBE_GROUP)(char* out, size_t cap) {
     if (!env) return 0;
     b.kvi("is_p2sh", env->is_p2sh);
     b.kv("p2shstack", stackstr(env->p2shstack));
-    b.kv("successor", hexv(env->successor_script));
+    b.kvraw("successor", hexv(env->successor_script));
     b.kvi("sigversion", (int)env->sigversion);
     b.kvi("flags", env->flags);
     b.kvi("serror", env->serror ? (int)*env->serror : -1);
